@@ -31,7 +31,7 @@ ASSUMPTIONS = [
 ]
 REQUIRED_COUNTERS = ['calls_compared_3way', 'snapshots_compared_3way', 'study_recreations', 'failed_metadata_updates',
                      'operations_compared']
-MIN_DISTINCT = {'quick': 100, 'thorough': 2000}
+MIN_DISTINCT = {'quick': 60, 'thorough': 2000}
 
 WEIGHTS = {
     'CreateStudy': 8, 'GetStudy': 2, 'ListStudies': 3, 'DeleteStudy': 5, 'SetStudyState': 3,
